@@ -130,7 +130,10 @@ func (gn *graphNode) compileIfNeeded(ctx context.Context) (*composableRunnable, 
 		r = cr
 		gn.cr = cr
 	} else if gn.cr != nil {
-		r = gn.cr
+		// a copy: the same runnable (a Lambda's) can be the executor of several nodes, in several graphs,
+		// and the per-node data set below must not be written into it
+		nodeRunnable := *gn.cr
+		r = &nodeRunnable
 	} else {
 		return nil, errors.New("no graph or component provided")
 	}
